@@ -29,6 +29,7 @@ type c08Shape struct {
 	Named    bool   `json:"named"`
 	SrcExt   bool   `json:"src_ext"`
 	DstExt   bool   `json:"dst_ext"`
+	Alias    bool   `json:"alias,omitempty"`
 	StyleAt  string `json:"style_at,omitempty"` // "iface": the style notation sits on the interface
 	Name     string `json:"name"`
 	ExpParam string `json:"exp_params,omitempty"`
@@ -50,9 +51,15 @@ func (s c08Shape) method() pg.Method {
 	m := pg.Method{Name: s.Name, SrcType: "LInner", DstType: "LInner2", SrcPtr: s.SrcPtr, DstPtr: s.DstPtr, RetErr: s.RetErr, Reverse: s.Reverse}
 	if s.SrcExt {
 		m.SrcType = "ext.Inner"
+		if s.Alias {
+			m.SrcType = "am.T" // imported under an alias that differs from the package name (model)
+		}
 	}
 	if s.DstExt {
 		m.DstType = "ext.Inner2"
+		if s.Alias {
+			m.DstType = "bm.T"
+		}
 	}
 	if s.Style == "arg" {
 		m.Opts.Style = "arg"
@@ -171,17 +178,25 @@ func c08JudgeLegal(env *hx.Env, shapes []c08Shape) (hx.Verdict, int) {
 		return hx.Failf("C08|legal-shape-rejected", "batch of %d legal shapes rejected (exit %d): %s", len(shapes), o.Res.Exit, tail(o.Res.Stderr, 600)), -1
 	}
 	// expectation file: one func-typed variable per alternative
-	var exp strings.Builder
-	exp.WriteString("package home\n\n")
-	if strings.Contains(o.Out+fmt.Sprint(shapes), "ext") {
-		exp.WriteString("import \"example.com/m/ext\"\n\nvar _ ext.MyInt\n\n")
-	}
+	var body strings.Builder
 	for _, s := range shapes {
 		_, params, results := s.expected()
 		for k, ps := range params {
-			fmt.Fprintf(&exp, "var exp%d_%s func(%s) %s\n", k, s.Name, ps, results)
+			fmt.Fprintf(&body, "var exp%d_%s func(%s) %s\n", k, s.Name, ps, results)
 		}
 	}
+	var exp strings.Builder
+	exp.WriteString("package home\n\n")
+	for _, k := range pg.KnownPkgs {
+		if strings.Contains(body.String(), k.Qual+".") {
+			if k.Alias != "" {
+				fmt.Fprintf(&exp, "import %s %q\n", k.Alias, k.Path)
+			} else {
+				fmt.Fprintf(&exp, "import %q\n", k.Path)
+			}
+		}
+	}
+	exp.WriteString("\n" + body.String())
 	all := files.Set(pg.OutPath, o.Out).Set("home/zz_expect.go", exp.String())
 	w := pg.NewWorld(all, false)
 	home := w.Pkg("home")
@@ -287,6 +302,12 @@ func c08All() []c08Shape {
 			s.Name = fmt.Sprintf("Convert%04d", n)
 			n++
 			all = append(all, s)
+			if s.SrcExt || s.DstExt {
+				s.Alias = true
+				s.Name = fmt.Sprintf("Convert%04d", n)
+				n++
+				all = append(all, s)
+			}
 		}
 	}
 	return all
@@ -294,8 +315,8 @@ func c08All() []c08Shape {
 
 func TestC08(t *testing.T) {
 	env, rec := start(t, "C08", "exploration",
-		"complete enumeration of style{return,arg} x receiver{none,named} x reverse x source{pointer,value} x destination{pointer,value} x error result x 0..3 additional arguments (int, *LInner, ext.MyInt) x named/unnamed parameters x local/imported source x local/imported destination (2^9 x 4 = 2048 combinations). "+
-			"Legal combinations (864) are generated in batches of 32 methods and each function's go/types signature must be identical, names included, to the one computed from the README rules; documented-illegal combinations (1184: :reverse without :style arg or with additional arguments, imported receiver) get a setup file each and must be rejected. "+
+		"complete enumeration of style{return,arg} x receiver{none,named} x reverse x source{pointer,value} x destination{pointer,value} x error result x 0..3 additional arguments (int, *LInner, ext.MyInt) x named/unnamed parameters x local/imported source x local/imported destination (2^9 x 4 = 2048 combinations, plus the 1536 with an imported operand again with the operand types imported under an alias that differs from the package name). "+
+			"Legal combinations are generated in batches of 32 methods and each function's go/types signature must be identical, names included, to the one computed from the README rules; documented-illegal combinations ( :reverse without :style arg or with additional arguments, imported receiver) get a setup file each and must be rejected. "+
 			"Non-trivial: every combination other than the default shape; combinations are distinct by construction.")
 	defer rec.Done()
 	needBin(t, env)
